@@ -140,7 +140,40 @@ class QfixedImp(float, Qtype):
         return v[1][v[0].BIT_SIZE_FRACTIONAL :] + v[1][: v[0].BIT_SIZE_FRACTIONAL][::-1]
 
     @staticmethod
+    def _align(tleft: TExp, tright: TExp):
+        """Bring two Qfixed operands of different types to the common type with
+        the larger integer part and the larger fractional part: the integer part is
+        zero-extended at its high end, the fractional part at its low end"""
+        tl, tr = tleft[0], tright[0]
+        if (
+            tl == tr
+            or not (isinstance(tl, type) and issubclass(tl, QfixedImp))
+            or not (isinstance(tr, type) and issubclass(tr, QfixedImp))
+        ):
+            return tleft, tright
+
+        i = max(tl.BIT_SIZE_INTEGER, tr.BIT_SIZE_INTEGER)
+        f = max(tl.BIT_SIZE_FRACTIONAL, tr.BIT_SIZE_FRACTIONAL)
+        common = None
+        for t in QFIXED_TYPES:
+            if t.BIT_SIZE_INTEGER == i and t.BIT_SIZE_FRACTIONAL == f:
+                common = t
+        if common is None:
+            raise TypeErrorException(tr, tl)
+
+        def widen(v):
+            t = v[0]
+            ip = list(v[1][: t.BIT_SIZE_INTEGER]) + [False] * (i - t.BIT_SIZE_INTEGER)
+            fp = list(v[1][t.BIT_SIZE_INTEGER :]) + [False] * (
+                f - t.BIT_SIZE_FRACTIONAL
+            )
+            return (common, ip + fp)
+
+        return widen(tleft), widen(tright)
+
+    @staticmethod
     def eq(tleft: TExp, tcomp: TExp) -> TExp:
+        tleft, tcomp = QfixedImp._align(tleft, tcomp)
         ex = true
         for x in zip(tleft[1], tcomp[1]):
             ex = And(ex, _eq(x[0], x[1]))
@@ -149,6 +182,7 @@ class QfixedImp(float, Qtype):
 
     @staticmethod
     def neq(tleft: TExp, tcomp: TExp) -> TExp:
+        tleft, tcomp = QfixedImp._align(tleft, tcomp)
         ex = false
         for x in zip(tleft[1], tcomp[1]):
             ex = Or(ex, _neq(x[0], x[1]))
@@ -162,6 +196,7 @@ class QfixedImp(float, Qtype):
         if not issubclass(tcomp[0], QfixedImp):
             raise TypeErrorException(tcomp[0], QfixedImp)
 
+        tleft, tcomp = QfixedImp._align(tleft, tcomp)
         tleft_e = cast(Qtype, tleft)
         tcomp_e = cast(Qtype, tcomp)
 
@@ -213,6 +248,7 @@ class QfixedImp(float, Qtype):
         if not issubclass(tleft[0], QfixedImp):
             raise TypeErrorException(tleft[0], QfixedImp)
 
+        tleft, tright = QfixedImp._align(tleft, tright)
         tright_e = cast(Qtype, tright)
         tleft_e = cast(Qtype, tleft)
 
@@ -237,6 +273,7 @@ class QfixedImp(float, Qtype):
         if not issubclass(tright[0], Qtype):
             raise TypeErrorException(tright[0], Qtype)
 
+        tleft, tright = QfixedImp._align(tleft, tright)
         an = cls.bitwise_not(cls.fill(tleft))
         su = cls.add(an, cls.fill(tright))
         return cls.bitwise_not(su)
